@@ -277,36 +277,142 @@ func (a *Adv) DoubleSpendProbes() int {
 			break
 		}
 	}
-	for ti := range a.Honest.V2Transactions() {
-		txn := a.Honest.V2.Transactions[ti]
-		if len(txn.SiacoinInputs) > 0 && !txn.SiacoinInputs[0].Parent.SiacoinOutput.Value.IsZero() {
-			blk := CloneBlock(a.Honest)
-			x := &blk.V2.Transactions[ti]
-			in := x.SiacoinInputs[pick("dupIn2", len(x.SiacoinInputs))]
-			x.SiacoinInputs = append(x.SiacoinInputs, types.V2SiacoinInput{Parent: in.Parent.Copy(), SatisfiedPolicy: in.SatisfiedPolicy})
-			x.SiacoinOutputs = append(x.SiacoinOutputs, types.SiacoinOutput{Value: in.Parent.SiacoinOutput.Value, Address: types.Address{9}})
-			if !in.Parent.SiacoinOutput.Value.IsZero() {
+	// one parent listed twice by one v2 transaction; once for a parent held by the accumulator and once for a parent
+	// created earlier in the block (an ephemeral parent is known to the block only through its MidState, so its
+	// in-transaction bookkeeping is a separate code path)
+	for _, eph := range []bool{false, true} {
+		sfx := ""
+		if eph {
+			sfx = "-ephemeral-parent"
+		}
+		isEph := func(se types.StateElement) bool { return se.LeafIndex == types.UnassignedLeafIndex }
+	scLoop:
+		for ti := range a.Honest.V2Transactions() {
+			for ii, in0 := range a.Honest.V2.Transactions[ti].SiacoinInputs {
+				if isEph(in0.Parent.StateElement) != eph || in0.Parent.SiacoinOutput.Value.IsZero() {
+					continue
+				}
+				blk := CloneBlock(a.Honest)
+				x := &blk.V2.Transactions[ti]
+				in := x.SiacoinInputs[ii]
+				x.SiacoinInputs = append(x.SiacoinInputs, types.V2SiacoinInput{Parent: in.Parent.Copy(), SatisfiedPolicy: in.SatisfiedPolicy})
+				x.SiacoinOutputs = append(x.SiacoinOutputs, types.SiacoinOutput{Value: in.Parent.SiacoinOutput.Value, Address: types.Address{9}})
 				SignV2(a.CS, x, SignOpts{})
-				if a.emit(blk, "dup-siacoin-input-same-txn/v2", "reject", nil, nil) {
+				if a.emit(blk, "dup-siacoin-input-same-txn/v2"+sfx, "reject", nil, nil) {
 					n++
 				}
+				break scLoop
 			}
-			break
+		}
+	sfLoop:
+		for ti := range a.Honest.V2Transactions() {
+			for ii, in0 := range a.Honest.V2.Transactions[ti].SiafundInputs {
+				if isEph(in0.Parent.StateElement) != eph || in0.Parent.SiafundOutput.Value == 0 {
+					continue
+				}
+				blk := CloneBlock(a.Honest)
+				x := &blk.V2.Transactions[ti]
+				in := x.SiafundInputs[ii]
+				x.SiafundInputs = append(x.SiafundInputs, types.V2SiafundInput{Parent: in.Parent.Copy(), ClaimAddress: in.ClaimAddress, SatisfiedPolicy: in.SatisfiedPolicy})
+				x.SiafundOutputs = append(x.SiafundOutputs, types.SiafundOutput{Value: in.Parent.SiafundOutput.Value, Address: types.Address{9}})
+				SignV2(a.CS, x, SignOpts{})
+				if a.emit(blk, "dup-siafund-input-same-txn/v2"+sfx, "reject", nil, nil) {
+					n++
+				}
+				break sfLoop
+			}
 		}
 	}
-	for ti := range a.Honest.V2Transactions() {
-		txn := a.Honest.V2.Transactions[ti]
-		if len(txn.SiafundInputs) > 0 {
-			blk := CloneBlock(a.Honest)
-			x := &blk.V2.Transactions[ti]
-			in := x.SiafundInputs[0]
-			x.SiafundInputs = append(x.SiafundInputs, types.V2SiafundInput{Parent: in.Parent.Copy(), ClaimAddress: in.ClaimAddress, SatisfiedPolicy: in.SatisfiedPolicy})
-			x.SiafundOutputs = append(x.SiafundOutputs, types.SiafundOutput{Value: in.Parent.SiafundOutput.Value, Address: types.Address{9}})
-			SignV2(a.CS, x, SignOpts{})
-			if a.emit(blk, "dup-siafund-input-same-txn/v2", "reject", nil, nil) {
-				n++
+	// an output created by an honest v2 transaction of this block, spent by an appended transaction as an ephemeral
+	// parent: once (control: accepted; for siafunds only below the height from which ephemeral siafund spends are
+	// refused) and listed twice by that one transaction (the second listing spends nothing new: rejected everywhere)
+	if a.v2Allowed() {
+		median := MedianTimestamp(a.CS)
+		fixed := a.Child >= a.G.C.Net.HardforkV2.EphemeralOutputHeight
+		doneSF, doneSC := false, false
+		spentInBlock := map[types.Hash256]bool{} // outputs a later honest transaction of the block already spends
+		for _, txn := range a.Honest.Transactions {
+			for _, in := range txn.SiacoinInputs {
+				spentInBlock[types.Hash256(in.ParentID)] = true
 			}
-			break
+			for _, in := range txn.SiafundInputs {
+				spentInBlock[types.Hash256(in.ParentID)] = true
+			}
+		}
+		for _, txn := range a.Honest.V2Transactions() {
+			for _, in := range txn.SiacoinInputs {
+				spentInBlock[types.Hash256(in.Parent.ID)] = true
+			}
+			for _, in := range txn.SiafundInputs {
+				spentInBlock[types.Hash256(in.Parent.ID)] = true
+			}
+		}
+		for ti := range a.Honest.V2Transactions() {
+			orig := a.Honest.V2.Transactions[ti]
+			txid := orig.ID()
+			for oi, o := range orig.SiafundOutputs {
+				lock, known := a.G.W.Locks[o.Address]
+				if doneSF || !known || o.Value == 0 || o.Value > 1<<40 || !lock.Spendable(true, a.Child, median) || spentInBlock[types.Hash256(orig.SiafundOutputID(txid, oi))] {
+					continue
+				}
+				sp, ok := Satisfy(lock.Policy, types.Hash256{}, a.CS.Index.Height, median)
+				if !ok {
+					continue
+				}
+				parent := orig.EphemeralSiafundOutput(oi)
+				parent.ID = orig.SiafundOutputID(txid, oi)
+				for _, times := range []int{1, 2} {
+					txn := types.V2Transaction{SiafundOutputs: []types.SiafundOutput{{Value: uint64(times) * o.Value, Address: types.Address{0xE2}}}}
+					for k := 0; k < times; k++ {
+						txn.SiafundInputs = append(txn.SiafundInputs, types.V2SiafundInput{Parent: parent.Copy(), ClaimAddress: types.Address{0xE1}, SatisfiedPolicy: sp})
+					}
+					SignV2(a.CS, &txn, SignOpts{})
+					blk := CloneBlock(a.Honest)
+					blk.V2.Transactions = append(blk.V2.Transactions, txn)
+					switch {
+					case times == 2:
+						if a.emit(blk, "dup-siafund-input-same-txn/v2-appended-ephemeral-parent", "reject", nil, nil) {
+							n++
+						}
+					case !fixed:
+						a.emit(blk, "fresh-single-spend/v2-appended-ephemeral-siafund-parent", "accept", nil, nil)
+					}
+				}
+				doneSF = true
+			}
+			for oi, o := range orig.SiacoinOutputs {
+				lock, known := a.G.W.Locks[o.Address]
+				if doneSC || !known || o.Value.IsZero() || o.Value.Hi>>62 != 0 || !lock.Spendable(true, a.Child, median) || spentInBlock[types.Hash256(orig.SiacoinOutputID(txid, oi))] {
+					continue
+				}
+				sp, ok := Satisfy(lock.Policy, types.Hash256{}, a.CS.Index.Height, median)
+				if !ok {
+					continue
+				}
+				parent := orig.EphemeralSiacoinOutput(oi)
+				parent.ID = orig.SiacoinOutputID(txid, oi)
+				for _, times := range []int{1, 2} {
+					total := o.Value
+					if times == 2 {
+						total = o.Value.Add(o.Value)
+					}
+					txn := types.V2Transaction{SiacoinOutputs: []types.SiacoinOutput{{Value: total, Address: types.Address{0xE3}}}}
+					for k := 0; k < times; k++ {
+						txn.SiacoinInputs = append(txn.SiacoinInputs, types.V2SiacoinInput{Parent: parent.Copy(), SatisfiedPolicy: sp})
+					}
+					SignV2(a.CS, &txn, SignOpts{})
+					blk := CloneBlock(a.Honest)
+					blk.V2.Transactions = append(blk.V2.Transactions, txn)
+					if times == 2 {
+						if a.emit(blk, "dup-siacoin-input-same-txn/v2-appended-ephemeral-parent", "reject", nil, nil) {
+							n++
+						}
+					} else {
+						a.emit(blk, "fresh-single-spend/v2-appended-ephemeral-siacoin-parent", "accept", nil, nil)
+					}
+				}
+				doneSC = true
+			}
 		}
 	}
 	for ti := range a.Honest.V2Transactions() {
